@@ -473,6 +473,14 @@ func C05(tier string) int {
 		for _, in := range ins[lo:hi] {
 			sc := &Scenario{Name: in.name, Kind: in.kind, Entry: in.entry, URL: outbox(Alice), Body: in.body, Tweak: world}
 			a := sc.World()
+			if (lo+len(classes)+len(outc))%6 == 0 || strings.Contains(in.name, "spelling=") {
+				// the same Actor has just REFUSED a Create that carried recipients of its own (its object is a
+				// Link): nothing of that request may show in this one
+				refused := &Scenario{Name: "refused-create", Kind: in.kind, Entry: "PostOutbox", URL: outbox(Alice),
+					Body: Doc("Create", "", "actor", Alice, "bcc", L{"https://r9.example/u/leak-bcc"}, "audience", "https://r9.example/u/leak-audience", "to", "https://r9.example/u/leak-to",
+						"object", M{"type": "Mention", "href": "https://r9.example/x", "bto": "https://r9.example/u/leak-bto"})}
+				refused.On(a, nil)
+			}
 			before := append([]string(nil), a.Outboxes[outbox(Alice)]...)
 			out := sc.On(a, nil)
 			if out.Panic != nil {
